@@ -308,7 +308,7 @@ def gen_netlist(rng, mode="full", max_stmts=10, max_inputs=5, depth=4, lookalike
     if escaped and rng.random() < escaped and not fast:
         cands = [w for w in nl["wires"] + nl["outputs"] + nl["inputs"] if w not in renames]
         for w in rng.sample(cands, min(len(cands), rng.randint(1, 2))):
-            renames[w] = rng.choice(["\\" + w + "[1]", "\\" + w + "-x", "\\3" + w, "\\" + w + "/q"])
+            renames[w] = rng.choice(["\\" + w + "[1]", "\\" + w + "-x", "\\3" + w, "\\" + w + "/q", "\\" + w + "//0", "\\" + w + "/*", "\\" + w + "*/", "\\lane-" + w + "ab"])
     if fast and rng.random() < 0.1:
         # nets whose names consist of the radix letters and a binary digit (d0, b1, h1, bd0 ...)
         pool = [x for x in ["d0", "d1", "b0", "b1", "h0", "h1", "bd0", "hb1", "dd1"] if x not in used_names]
